@@ -77,6 +77,13 @@ func (rc *recorder) drive(ci int, c *Case, path int) error {
 		f := false
 		return rc.emit(recEvent{Ev: "loadfail", ID: c.ID, Ok: &f, Var: err.Error()})
 	}
+	return rc.walk(h, c, 1)
+}
+
+// walk drives runner number r of the current trace (a runner that is not waiting for a
+// choice) along a random path.
+func (rc *recorder) walk(h *host, c *Case, r int) error {
+	rnd := rc.rnd
 	waiting, pendingPolls, ends := false, 0, 0
 	nopts := 0
 	for call := 0; call < rc.maxCalls; call++ {
@@ -84,7 +91,7 @@ func (rc *recorder) drive(ci int, c *Case, path int) error {
 			name := c.Vars[rnd.Intn(len(c.Vars))]
 			v := randomHostVal(rnd)
 			h.hostSet(name, v)
-			if err := rc.emit(recEvent{Ev: "hostset", ID: c.ID, R: 1, Var: name, Val: &v}); err != nil {
+			if err := rc.emit(recEvent{Ev: "hostset", ID: c.ID, R: r, Var: name, Val: &v}); err != nil {
 				return err
 			}
 		}
@@ -105,7 +112,7 @@ func (rc *recorder) drive(ci int, c *Case, path int) error {
 			in.Choice = arbitraryArg(rnd)
 		}
 		obs := h.next(in.Choice)
-		if err := rc.emit(recEvent{Ev: "next", ID: c.ID, R: 1, In: in, Obs: &obs}); err != nil {
+		if err := rc.emit(recEvent{Ev: "next", ID: c.ID, R: r, In: in, Obs: &obs}); err != nil {
 			return err
 		}
 		waiting = false
